@@ -179,6 +179,7 @@ namespace GeographicLib {
         break;
       zone1 = 10 * zone1 + i;
       ++p;
+      if (p > 2) break;
     }
     if (p > 0 && !(zone1 >= UTMUPS::MINUTMZONE && zone1 <= UTMUPS::MAXUTMZONE))
       throw GeographicErr("Zone " + Utility::str(zone1) + " not in [1,60]");
